@@ -19,6 +19,8 @@ RULE = (
     'builtin abs (not a scope), identifiers that are not NFKC-stable with the normalised spelling as decoy, '
     'sequences of new frames with / without a column of the name (each order on a design of its own), one '
     'Environment object reused with other extra namespaces. '
+    'Later: names that read like literals in another case, the probed term in 11- and 15-term models, caller '
+    'arrays never overwritten, dotted names with underscore / digit parts, the argument of offset(). '
 )
 ASSUMPTIONS = ["reference order: data, built-ins, caller locals, caller globals, extra_namespace (callees: without data)"]
 
